@@ -401,7 +401,7 @@ MentionedBefore(s, n) == \E j \in Idx : prog[j].n = n /\ prog[j].t # "open" /\ S
 AddUse(n) == /\ NameOK(n) /\ cnt < MaxItems
              /\ (IF Kind(Top) = "comp" /\ Phase = "iter" THEN Last.t = "target" /\ "iteruse" \in Feat ELSE TRUE)
              /\ Add(It("use", n, ""), Top) /\ UNCHANGED <<stack, loopAt>>
-AddHUse(n) == /\ "huse" \in Feat /\ NameOK(n) /\ cnt < MaxItems /\ Kind(Top) \in {"fn", "class", "lambda"}
+AddHUse(n) == /\ "huse" \in Feat /\ NameOK(n) /\ cnt < MaxItems /\ Kind(Top) \in {"fn", "class"}
               /\ prog[Top].d = 0
               /\ (IF Last.t = "open" THEN N = Top
                   ELSE Last.t = "bind" /\ Last.h = "param" /\ sc[N] = Top)
